@@ -96,6 +96,9 @@ class MonteCarlo(SensitivityAnalysis):
 
         self._results = pd.DataFrame(results)
 
+        # restore the nominal system, as the sensitivity analysis does
+        self.tolerancing.reset()
+
     def view_histogram(self, kde=True):
         """
         Displays a histogram of the data.
